@@ -8,6 +8,17 @@
   page_ctm            the rotation -> CTM if/elif table of pdfinterp.PDFPageInterpreter.process_page
   begin_page_bbox     converter.PDFLayoutAnalyzer.begin_page: box of the LTPage
 
+  add_rotation        high_level.extract_text_to_fp: `page.rotate = (page.rotate + rotation) % 360`
+  overlay_cond        test of the overlay loop in create_pages.depth_first_search
+  select_yield        test `not pagenos or pageno in pagenos` of the get_pages loop
+  select_break        test `maxpages and maxpages <= pageno + 1` of the get_pages loop
+
+The loops themselves are hand-modelled (Model/PageTree.lean).  Their statement skeleton is
+compared, statement by statement, with the shape the model was written for (EXPECTED_* below;
+annotations, comments, docstrings and log calls are ignored, the three translated tests are
+masked), so that any other edit of `depth_first_search`, of the tail of `create_pages` or of the
+`get_pages` loop raises `Untranslatable` (a broken tie).
+
 Methods are first rewritten (with `ast`) into pure functions of their inputs: `page.rotate` /
 `page.mediabox` become parameters and the assignment whose value is later consumed becomes the
 `return`.  The rewriting checks the statements around it (that the CTM computed by the table is
@@ -180,6 +191,39 @@ def rotate_function(page_mod):
     return mkfun("norm_rotate", [("r", "int")], "int", [ast.Return(value=expr)]), int(g.args[1].value)
 
 
+def add_rotation_function(hl_mod) -> ast.FunctionDef:
+    """The `rotation` option of extract_text_to_fp: the assignment to page.rotate inside the loop over
+    PDFPage.get_pages, which must be followed by interpreter.process_page(page)."""
+    fn = P.find_function(hl_mod, "extract_text_to_fp")
+    loop = find_for(fn.body, lambda f: "get_pages" in ast.unparse(f.iter))
+    if loop is None or len(loop.body) != 2:
+        raise P.Untranslatable("extract_text_to_fp: loop over PDFPage.get_pages with two statements not found")
+    asg, proc = loop.body
+    if not (isinstance(asg, ast.Assign) and len(asg.targets) == 1 and is_attr(asg.targets[0], "page", "rotate")):
+        raise P.Untranslatable("extract_text_to_fp: first loop statement is not `page.rotate = ...`")
+    if ast.unparse(proc) != "interpreter.process_page(page)":
+        raise P.Untranslatable("extract_text_to_fp: second loop statement is not interpreter.process_page(page)")
+    kw = {k.arg: ast.unparse(k.value) for k in loop.iter.keywords}
+    args = [ast.unparse(a) for a in loop.iter.args]
+    if args != ["inf", "page_numbers"] or kw.get("maxpages") != "maxpages":
+        raise P.Untranslatable("extract_text_to_fp: get_pages is not called with (inf, page_numbers, maxpages=maxpages)")
+    expr = Subst({("page", "rotate"): "rotate"}).visit(copy.deepcopy(asg.value))
+    return mkfun("add_rotation", [("rotate", "int"), ("rotation", "int")], "int", [ast.Return(value=expr)])
+
+
+def check_selection_plumbing(hl_mod) -> None:
+    """extract_text / extract_pages hand page_numbers and maxpages to PDFPage.get_pages unchanged."""
+    for name in ("extract_text", "extract_pages"):
+        fn = P.find_function(hl_mod, name)
+        calls = [n for n in ast.walk(fn) if isinstance(n, ast.Call) and ast.unparse(n.func) == "PDFPage.get_pages"]
+        if len(calls) != 1:
+            raise P.Untranslatable(f"{name}: expected exactly one call of PDFPage.get_pages")
+        c = calls[0]
+        kw = {k.arg: ast.unparse(k.value) for k in c.keywords}
+        if [ast.unparse(a) for a in c.args] != ["fp", "page_numbers"] or kw.get("maxpages") != "maxpages":
+            raise P.Untranslatable(f"{name}: get_pages is not called with (fp, page_numbers, maxpages=maxpages)")
+
+
 def us_letter(page_mod):
     fn = P.find_function(page_mod, "PDFPage._parse_mediabox")
     for s in fn.body:
@@ -191,6 +235,209 @@ def us_letter(page_mod):
     raise P.Untranslatable("us_letter not found")
 
 
+# ---------------------------------------------------------------- loop skeletons and their tests
+
+EXPECTED_DFS = '''
+def depth_first_search(obj, parent, visited=None):
+    if isinstance(obj, int):
+        object_id = obj
+        object_properties = dict_value(document.getobj(object_id)).copy()
+    else:
+        object_id = getattr(obj, "objid", None)
+        object_properties = dict_value(obj).copy()
+    if visited is None:
+        visited = set()
+    if object_id is not None:
+        if object_id in visited:
+            return
+        visited.add(object_id)
+    for k, v in parent.items():
+        if "MASKED":
+            object_properties[k] = v
+    object_type = object_properties.get("Type")
+    if object_type is None and not settings.STRICT:
+        object_type = object_properties.get("type")
+    if object_type is LITERAL_PAGES and "Kids" in object_properties:
+        if object_id is None:
+            return
+        for child in list_value(object_properties["Kids"]):
+            yield from depth_first_search(child, object_properties, visited)
+    elif object_type is LITERAL_PAGE:
+        yield (object_id, object_properties)
+'''
+
+EXPECTED_CREATE_TAIL = '''
+try:
+    page_labels = document.get_page_labels()
+except PDFNoPageLabels:
+    page_labels = itertools.repeat(None)
+pages = False
+if "Pages" in document.catalog:
+    objects = depth_first_search(document.catalog["Pages"], document.catalog)
+    for objid, tree in objects:
+        yield cls(document, objid, tree, next(page_labels))
+        pages = True
+if not pages:
+    for xref in document.xrefs:
+        for objid in xref.get_objids():
+            try:
+                obj = document.getobj(objid)
+                if isinstance(obj, dict) and obj.get("Type") is LITERAL_PAGE:
+                    yield cls(document, objid, obj, next(page_labels))
+            except PDFObjectNotFound:
+                pass
+'''
+
+EXPECTED_SELECT_LOOP = '''
+for pageno, page in enumerate(cls.create_pages(doc)):
+    if "MASKED":
+        yield page
+    if "MASKED":
+        break
+'''
+
+
+class Normalise(ast.NodeTransformer):
+    """Drop annotations, docstrings and log calls; turn annotated assignments into plain ones."""
+
+    def visit_FunctionDef(self, node):
+        self.generic_visit(node)
+        for a in node.args.args + node.args.kwonlyargs:
+            a.annotation = None
+        node.returns = None
+        node.decorator_list = []
+        node.body = [s for s in no_docstring(node.body)] or [ast.Pass()]
+        return node
+
+    def visit_AnnAssign(self, node):
+        self.generic_visit(node)
+        if node.value is None:
+            return None
+        return ast.copy_location(ast.Assign(targets=[node.target], value=node.value), node)
+
+    def visit_Expr(self, node):
+        return None if is_log_call(node) else self.generic_visit(node)
+
+
+MASK = ast.Constant(value="MASKED")
+
+
+def same_shape(actual, expected_src: str, what: str, masks) -> None:
+    """`actual`: list of statements; `masks`: the If nodes (inside `actual`) whose tests are translated."""
+    actual = copy.deepcopy(actual)
+    mask_ids = {(m.lineno, m.col_offset) for m in masks}
+    for node in ast.walk(ast.Module(body=actual, type_ignores=[])):
+        if isinstance(node, ast.If) and (node.lineno, node.col_offset) in mask_ids:
+            node.test = MASK
+    actual = [Normalise().visit(s) for s in actual]
+    actual = [s for s in actual if s is not None]
+    expected = [Normalise().visit(s) for s in ast.parse(expected_src).body]
+    da = [ast.dump(ast.fix_missing_locations(s)) for s in actual]
+    de = [ast.dump(s) for s in expected]
+    if da != de:
+        if len(actual) == 1 and len(expected) == 1 and isinstance(actual[0], (ast.FunctionDef, ast.For)) \
+                and type(actual[0]) is type(expected[0]):
+            # descend: report the first differing statement of the body
+            actual, expected = actual[0].body, expected[0].body
+            da = [ast.dump(ast.fix_missing_locations(x)) for x in actual]
+            de = [ast.dump(x) for x in expected]
+        for i, (x, y) in enumerate(zip(da, de)):
+            if x != y:
+                raise P.Untranslatable(f"{what}: statement {i + 1} differs from the modelled shape: "
+                                       + ast.unparse(actual[i])[:160].replace("\n", " | "))
+        raise P.Untranslatable(f"{what}: {len(da)} statements, the model was written for {len(de)}")
+
+
+def find_for(stmts, pred):
+    for s in stmts:
+        if isinstance(s, ast.For) and pred(s):
+            return s
+    return None
+
+
+class CondTranslator:
+    """Boolean tests over named atoms.  `atoms` maps `ast.dump` of a sub-expression to (lean, kind):
+    kind 'bool' (the sub-expression's truth value is a parameter) or 'int' (an integer parameter)."""
+
+    def __init__(self, atoms):
+        self.atoms = atoms
+
+    def b(self, e) -> str:
+        key = ast.dump(e)
+        if key in self.atoms:
+            name, kind = self.atoms[key]
+            return name if kind == "bool" else f"({name} != 0)"
+        if isinstance(e, ast.BoolOp):
+            op = " && " if isinstance(e.op, ast.And) else " || "
+            return "(" + op.join(self.b(v) for v in e.values) + ")"
+        if isinstance(e, ast.UnaryOp) and isinstance(e.op, ast.Not):
+            return f"(!{self.b(e.operand)})"
+        if isinstance(e, ast.Compare) and len(e.ops) == 1:
+            op = e.ops[0]
+            if isinstance(op, ast.NotIn):
+                pos = ast.Compare(left=e.left, ops=[ast.In()], comparators=e.comparators)
+                return f"(!{self.b(pos)})"
+            sym = {ast.LtE: "≤", ast.Lt: "<", ast.GtE: "≥", ast.Gt: ">"}.get(type(op))
+            if sym:
+                return f"(decide ({self.i(e.left)} {sym} {self.i(e.comparators[0])}))"
+            if isinstance(op, (ast.Eq, ast.NotEq)):
+                return f"({self.i(e.left)} {'==' if isinstance(op, ast.Eq) else '!='} {self.i(e.comparators[0])})"
+        raise P.Untranslatable("test outside the subset: " + ast.unparse(e))
+
+    def i(self, e) -> str:
+        key = ast.dump(e)
+        if key in self.atoms and self.atoms[key][1] == "int":
+            return self.atoms[key][0]
+        if isinstance(e, ast.Constant) and isinstance(e.value, int) and not isinstance(e.value, bool):
+            return f"({e.value} : Int)"
+        if isinstance(e, ast.BinOp) and isinstance(e.op, (ast.Add, ast.Sub)):
+            return f"({self.i(e.left)} {'+' if isinstance(e.op, ast.Add) else '-'} {self.i(e.right)})"
+        raise P.Untranslatable("integer expression outside the subset: " + ast.unparse(e))
+
+
+def expr_of(src: str):
+    return ast.parse(src, mode="eval").body
+
+
+def loops(page_mod):
+    """Checks the skeletons; returns the Lean text of overlay_cond, select_yield, select_break."""
+    create = P.find_function(page_mod, "PDFPage.create_pages")
+    body = no_docstring(create.body)
+    if not (body and isinstance(body[0], ast.FunctionDef) and body[0].name == "depth_first_search"):
+        raise P.Untranslatable("create_pages does not start with depth_first_search")
+    dfs = body[0]
+    ov = find_for(dfs.body, lambda f: isinstance(f.iter, ast.Call) and ast.unparse(f.iter) == "parent.items()")
+    if ov is None or len(ov.body) != 1 or not isinstance(ov.body[0], ast.If):
+        raise P.Untranslatable("depth_first_search: overlay loop `for k, v in parent.items(): if ...` not found")
+    same_shape([dfs], EXPECTED_DFS, "depth_first_search", [ov.body[0]])
+    same_shape(body[1:], EXPECTED_CREATE_TAIL, "create_pages (after depth_first_search)", [])
+    getp = P.find_function(page_mod, "PDFPage.get_pages")
+    sel = find_for(getp.body, lambda f: "create_pages" in ast.unparse(f.iter))
+    if sel is None or getp.body[-1] is not sel:
+        raise P.Untranslatable("get_pages does not end with the loop over create_pages")
+    ifs = [x for x in sel.body if isinstance(x, ast.If)]
+    if len(ifs) != 2:
+        raise P.Untranslatable("get_pages loop: expected two if statements")
+    same_shape([sel], EXPECTED_SELECT_LOOP, "get_pages loop", ifs)
+    out = []
+    t = CondTranslator({ast.dump(expr_of("k in cls.INHERITABLE_ATTRS")): ("k_inheritable", "bool"),
+                        ast.dump(expr_of("k in object_properties")): ("k_in_props", "bool")})
+    out.append("/-- Test of the overlay loop: `" + ast.unparse(ov.body[0].test) + "`. -/\n"
+               "def overlay_cond (k_inheritable : Bool) (k_in_props : Bool) : Bool :=\n  "
+               + t.b(ov.body[0].test) + "\n\n")
+    t = CondTranslator({ast.dump(expr_of("pagenos")): ("pagenos_nonempty", "bool"),
+                        ast.dump(expr_of("pageno in pagenos")): ("pageno_in_pagenos", "bool")})
+    out.append("/-- `get_pages`: `" + ast.unparse(ifs[0].test) + "` (truth value of the container = non-empty). -/\n"
+               "def select_yield (pagenos_nonempty : Bool) (pageno_in_pagenos : Bool) : Bool :=\n  "
+               + t.b(ifs[0].test) + "\n\n")
+    t = CondTranslator({ast.dump(expr_of("maxpages")): ("maxpages", "int"),
+                        ast.dump(expr_of("pageno")): ("pageno", "int")})
+    out.append("/-- `get_pages`: `" + ast.unparse(ifs[1].test) + "`. -/\n"
+               "def select_break (maxpages : Int) (pageno : Int) : Bool :=\n  "
+               + t.b(ifs[1].test) + "\n\n")
+    return "".join(out)
+
+
 def rat_lit(q: Fraction) -> str:
     return f"({q.numerator} : Rat)" if q.denominator == 1 else f"(({q.numerator} : Rat) / {q.denominator})"
 
@@ -200,7 +447,9 @@ def generate(lean_dir: str):
     page_mod = P.parse_file("pdfminer/pdfpage.py")
     interp_mod = P.parse_file("pdfminer/pdfinterp.py")
     conv_mod = P.parse_file("pdfminer/converter.py")
-    out = [P.HEADER.format(src="pdfminer/pdfpage.py, pdfinterp.py, converter.py", ns="PageTree")
+    hl_mod = P.parse_file("pdfminer/high_level.py")
+    check_selection_plumbing(hl_mod)
+    out = [P.HEADER.format(src="pdfminer/pdfpage.py, pdfinterp.py, converter.py, high_level.py", ns="PageTree")
            .replace("import PdfVerif.Model.Prelude\n", "import PdfVerif.Model.Prelude\nimport PdfVerif.Gen.Utils\n")]
     out.append("/-- Python `abs` on a real. -/\ndef ratAbs (q : Rat) : Rat := if q < 0 then -q else q\n\n")
     inh = P.literal(P.find_assign(page_mod, "PDFPage.INHERITABLE_ATTRS"))
@@ -210,12 +459,14 @@ def generate(lean_dir: str):
     rot_fn, rot_default = rotate_function(page_mod)
     out.append(f"def ROTATE_DEFAULT : Int := {rot_default}\n\n")
     out.append(T({}, default_kind="int").function(rot_fn) + "\n")
+    out.append(T({}, default_kind="int").function(add_rotation_function(hl_mod)) + "\n")
     out.append("def US_LETTER : Rect := (" + ", ".join(rat_lit(x) for x in us_letter(page_mod)) + ")\n\n")
     out.append(T({}, default_kind="rat").function(P.find_function(page_mod, "PDFPage._normalize_rect"),
                                                    lean_name="normalize_rect") + "\n")
     out.append(T({}, default_kind="rat").function(page_ctm_function(interp_mod)) + "\n")
     known = {"apply_matrix_rect": "PdfVerif.Gen.Utils.apply_matrix_rect"}
     out.append(T(known, default_kind="rat").function(begin_page_function(conv_mod)) + "\n")
+    out.append(loops(page_mod))
     out.append("end PdfVerif.Gen.PageTree\n")
     path = os.path.join(lean_dir, "PdfVerif", "Gen", "PageTree.lean")
     P.write_if_changed(path, "".join(out))
